@@ -163,7 +163,7 @@ impl <N: NumericOps> ArrayLinalgProducts<N> for Array<N> {
         if self.ndim()? == 1 && other.ndim()? == 1 {
             self.vdot(other)
         } else if self.ndim()? == 1 || other.ndim()? == 1 {
-            if self.ndim()? == 1 { self.shapes_align(0, &other.get_shape()?, other.ndim()? - 1)?; }
+            if self.ndim()? == 1 { self.shapes_align(0, &other.get_shape()?, other.ndim()? - 2)?; }
             else { self.shapes_align(self.ndim()? - 1, &other.get_shape()?, 0)?; }
             Self::matmul_1d_nd(self, other)
         } else if self.ndim()? == 2 && other.ndim()? == 2 {
@@ -299,12 +299,10 @@ trait ProductsHelper<N: NumericOps> {
                     .collect::<Array<N>>()
                     .reshape(&new_shape)
             } else {
-                let result = arr_1
-                    .get_elements()?
-                    .into_iter()
-                    .zip(&arr_2.split_axis(0)?)
-                    .map(|(a, b)| b.into_iter()
-                        .map(|item| a.to_f64() * item.to_f64())
+                let shape_2 = arr_2.get_shape()?;
+                let result = (0..shape_2[1])
+                    .map(|j| (0..shape_2[0])
+                        .map(|idx| arr_1[idx].to_f64() * arr_2[idx * shape_2[1] + j].to_f64())
                         .sum::<f64>())
                     .map(N::from)
                     .collect::<Array<N>>();
